@@ -106,6 +106,9 @@ Failed(e) ==
              /\ Contentful(e) /\ e.ref.st = "more" /\ e.ref.len = acc /\ e.ref.tail = "sync")
   \cup Chk("C10.flush_std",     (ph = "open" /\ e.ev = "Flush") =>
              /\ e.std.ok /\ e.std.st = "more" /\ e.std.len = acc)
+  \cup Chk("C10.stays_valid",   (ph = "open" /\ flushes > 0 /\ e.ev \in {"Write", "Close"}) =>
+             /\ Contentful(e) /\ e.ref.len >= dec
+             /\ (e.ev = "Close" => e.ref.st = "done" /\ e.ref.len = acc /\ e.std.ok /\ e.std.st = "done" /\ e.std.len = acc))
   \cup Chk("C10.flush_header",  (ph = "open" /\ e.ev = "Flush" /\ kind # "flate") => e.ref.hdr)
   \cup Chk("C01.close_complete", (ph = "open" /\ e.ev = "Close") =>
              /\ Contentful(e) /\ e.ref.st = "done" /\ e.ref.len = acc /\ e.ref.tail = "final"
@@ -134,7 +137,7 @@ Failed(e) ==
   \cup Chk("C16.closed_parity", ph = "afterClose" => (e.err # "nil") = ExpectErrClosed(e))
   \cup Chk("C16.closed_count",  (ph = "afterClose" /\ e.ev = "Write") => e.ret = 0)
   \cup Chk("C16.no_growth",     ph = "afterClose" =>
-             /\ e.ref.st = "done" /\ e.ref.len = dec
+             /\ (tail = "final" => e.ref.st = "done" /\ e.ref.len = dec)
              /\ (kind # "zlib" => e.bytes = 0)
              /\ (kind = "zlib" => (IF e.ev = "Close" /\ ~cerr THEN e.bytes \in {0, 4} ELSE e.bytes = 0)))
 
